@@ -205,7 +205,7 @@ TIERS = {
                   mc_multi=[('subflow', 2, 'TRUE', 'p1,c1,d1,g1', 'p1', 'FALSE'), ('subflow', 1, 'FALSE', 'p1,c1,d1,g1', 'p1', 'FALSE'),
                             ('multi', 1, 'TRUE', 'p1,p2', 'p1,p2', 'TRUE')],
                   # multi: (family, runs, shards, flags) of the multi-process driver
-                  multi=dict(multi=[('subflow', 400, 2, ['--budget', '2']), ('subflow', 300, 1, ['--budget', '2', '--nokeep']),
+                  multi=dict(multi_runs=[('subflow', 400, 2, ['--budget', '2']), ('subflow', 300, 1, ['--budget', '2', '--nokeep']),
                                     ('multi', 300, 2, ['--tops', '3', '--dups', '--budget', '2']),
                                     ('multi', 150, 1, ['--tops', '3', '--budget', '1', '--cap', '1']),
                                     ('multi', 1500, 3, ['--natural'])],
@@ -225,7 +225,7 @@ TIERS = {
                                 rand=[('timed+timedunits', 20000, 6)], rand_budget=4, rand_pact=0.25, nat_runs=0),
                      mc_multi=[('subflow', 3, 'TRUE', 'p1,c1,d1,g1', 'p1', 'FALSE'), ('subflow', 2, 'FALSE', 'p1,c1,d1,g1', 'p1', 'FALSE'),
                                ('multi', 2, 'TRUE', 'p1,p2', 'p1,p2', 'TRUE'), ('multi', 0, 'TRUE', 'p1,p2,p3', 'p1,p2,p3', 'TRUE')],
-                     multi=dict(multi=[('subflow', 6000, 4, ['--budget', '3']), ('subflow', 4000, 3, ['--budget', '2', '--nokeep']),
+                     multi=dict(multi_runs=[('subflow', 6000, 4, ['--budget', '3']), ('subflow', 4000, 3, ['--budget', '2', '--nokeep']),
                                        ('multi', 4000, 4, ['--tops', '3', '--dups', '--budget', '3']),
                                        ('multi', 2000, 2, ['--tops', '3', '--budget', '2', '--cap', '1']),
                                        ('multi', 2000, 2, ['--tops', '3', '--budget', '2', '--cap', '2', '--nokeep']),
@@ -448,7 +448,7 @@ def record_traces(tier, seed, key, group='core'):
                           '--kinds', ','.join(ALL_KINDS), '--shard', str(i), '--shards', str(shards),
                           '--split', str(split), '--max-runs', '200000', '--workdir', d + '/run'] + flags))
     # 2c. several processes in one engine, sub-workflow calls (C13, C15)
-    for j, item in enumerate(t.get('multi', [])):
+    for j, item in enumerate(t.get('multi_runs', [])):
         famname, runs, shards, flags = item
         tagx = ''.join(f.replace('--', '-') for f in flags if f.startswith('--'))
         fam = family(famname)
@@ -1217,6 +1217,63 @@ def check_c16(tier, seed):
     return 1 if violations else 0
 
 
+def check_c07(tier, seed):
+    prop = 'C07'
+    build_harness()
+    quick = tier == 'quick'
+    fam = family('dataflow')
+    out, wall = tlc('MCData.tla', 'SPECIFICATION Spec\nINVARIANT DataLaws\nINVARIANT NoCrossing\nCHECK_DEADLOCK FALSE\n', 'data-mc',
+                    env={'MODELS': fam}, workers=4, timeout=1800)
+    states, trans = tlc_stats(out)
+    if 'Error:' in out or states == 0:
+        raise ToolError('Data.tla fails its own laws: the specification is wrong\n' + out[-1500:])
+    d = '%s/c07-%s' % (WORK, tier)
+    shutil.rmtree(d, ignore_errors=True)
+    os.makedirs(d)
+    flavours = ['ct', 'mt2', 'ct', 'mt4'] if quick else ['ct', 'mt1', 'mt2', 'mt4', 'mt8'] * 6
+
+    def run(i):
+        f = '%s/data-%02d.ndjson' % (d, i)
+        sh([HARNESS, 'data', '--models', fam, '--out', f, '--seed', str(seed * 100 + i), '--rt', flavours[i],
+            '--workdir', d + '/run'], check=True, timeout=3000)
+        out, wall = tlc('TraceData.tla', 'SPECIFICATION DSpec\nPOSTCONDITION DDone\nCHECK_DEADLOCK FALSE\n', 'data-tr-%d' % i,
+                        env={'TRACE': f}, workers=1, timeout=3000, java_opts=JOPTS)
+        if 'DATA|DONE' not in out:
+            raise ToolError('TraceData failed on %s\n%s' % (f, out[-2000:]))
+        lines = open(f).read().split('\n')
+        return dict(file=f, bad=parse_marked(out, 'DATA'), lines=lines, n=sum(1 for x in lines if x))
+
+    with concurrent.futures.ThreadPoolExecutor(max_workers=8) as ex:
+        results = list(ex.map(run, range(len(flavours))))
+    violations = []
+    for r in results:
+        seen = set()
+        for b in r['bad']:
+            if b['a'] in seen:
+                continue
+            seen.add(b['a'])
+            rec = json.loads(r['lines'][int(b['a']) - 1])
+            path = replay_file(prop, tier, seed, 'data flow deviates from Data.tla: ' + b['what'], dict(program=rec.get('name'), trace=[rec]))
+            violations.append((b['what'], path))
+    total = sum(r['n'] for r in results)
+    sample = [json.loads(results[0]['lines'][70])]
+    write_evidence(prop, tier, seed, 'model_checking', dict(
+        states=states, transitions=trans, traces_validated_against_impl=total - len(violations), samples=[sample],
+        model_checking=dict(spec='spec/Data.tla via spec/MCData.tla', invariants=['DataLaws', 'NoCrossing'], programs=count_lines(fam)),
+        conformance=dict(scenarios=total, processes=2 * total, deviations=len(violations), runtimes=sorted(set(flavours))),
+        rule='every program of the dataflow family (one or two writers per step out of: set of a constant, set of an expression '
+             'over another name, $set in a script, an object returned by a script, client actions with and without declared '
+             'outputs, with extra and with private options; names declared by the workflow, by the writer\'s step, by the other '
+             'step, by nobody) is run as two interleaved processes with different start values; TLC recomputes from Data.tla what '
+             'every reader interrupt must have seen, the outputs of the terminal event and the holders of the private key'),
+        len(violations), ['two steps in sequence, no branches; values are small integers',
+                          'the visibility of names declared by no scope is not judged (outside the statement)',
+                          'one engine, two processes: isolation across more processes is C13'])
+    for what, path in violations[:5]:
+        print('VIOLATION property=%s replay=%s' % (prop, path))
+    return 1 if violations else 0
+
+
 # --------------------------------------------------------------------------------------------
 
 
@@ -1271,6 +1328,8 @@ def main(argv):
             return check_c14(tier, seed)
         if prop == 'C16':
             return check_c16(tier, seed)
+        if prop == 'C07':
+            return check_c07(tier, seed)
         print('no check for', prop)
         return 2
     except ToolError as e:
